@@ -2,7 +2,7 @@
     specification's, inversion of successful parses, and the invariants that
     tie the parser's state to the specification's document-order definitions. *)
 From Coq Require Import String Ascii Lia ZifyBool.
-From FA Require Import model.Base model.Json model.Parse model.SchemaSpec proofs.JsonProofs.
+From FA Require Import model.Base model.Json model.Parse model.SchemaSpec model.Canon proofs.JsonProofs.
 Open Scope string_scope.
 
 (** ---- the code's naming functions are the specification's ---- *)
@@ -52,6 +52,10 @@ Definition declared (full : string) (st : pstate) : pstate :=
 
 Definition fields_list (kv : list (string * json)) (fl : list json) : Prop :=
   jget "fields" kv = Some (JArr fl) \/ (jget "fields" kv = None /\ fl = []).
+
+(* the dict a record starts from: base plus the kept null namespace *)
+Definition rbase (kv : list (string * json)) (t full ns : string) : list (string * json) :=
+  keep_null_ns full ns (base_of kv (JStr t)).
 
 Definition mark (wh : bool) (reckv : list (string * json)) : json :=
   if wh then JObj (jset "__named_schemas" JNull (jset "__fastavro_parsed" (JBool true) reckv)) else JObj reckv.
@@ -125,20 +129,20 @@ Section Inv.
       jget "type" kv = Some (JStr "enum") ->
       schema_name kv ns = POk (ns', full) -> mem full (st_names st) = false ->
       jget "symbols" kv = Some (JArr syms) -> symbol_strings syms = Some ss -> nodupb ss = true ->
-      let parsed := JObj (jset "symbols" (JArr syms) (jset "name" (JStr full) (base_of kv (JStr "enum")))) in
+      let parsed := JObj (jset "symbols" (JArr syms) (keep_null_ns full ns (jset "name" (JStr full) (base_of kv (JStr "enum"))))) in
       node_ok (JObj kv) ns wh st d parsed (set_tbl full parsed (declared full st))
   | NFixed kv ns wh st d ns' full sz :
       jget "type" kv = Some (JStr "fixed") ->
       schema_name kv ns = POk (ns', full) -> mem full (st_names st) = false ->
       jget "size" kv = Some sz ->
-      let parsed := JObj (jset "size" sz (jset "name" (JStr full) (base_of kv (JStr "fixed")))) in
+      let parsed := JObj (jset "size" sz (keep_null_ns full ns (jset "name" (JStr full) (base_of kv (JStr "fixed"))))) in
       node_ok (JObj kv) ns wh st d parsed (set_tbl full parsed (declared full st))
   | NRecord kv t ns wh st d ns' full fl fs st3 :
       jget "type" kv = Some (JStr t) -> (t = "record" \/ t = "error") ->
       schema_name kv ns = POk (ns', full) -> mem full (st_names st) = false ->
       fields_list kv fl ->
-      fields_ok ns' fl (set_tbl full (JObj (base_of kv (JStr t))) (declared full st)) fs st3 ->
-      let reckv := jset "fields" (JArr fs) (jset "name" (JStr full) (base_of kv (JStr t))) in
+      fields_ok ns' fl (set_tbl full (JObj (rbase kv t full ns)) (declared full st)) fs st3 ->
+      let reckv := jset "fields" (JArr fs) (jset "name" (JStr full) (rbase kv t full ns)) in
       node_ok (JObj kv) ns wh st d (mark wh reckv) (set_tbl full (JObj reckv) st3).
 
   Lemma declare_inv full st st1 :
@@ -161,12 +165,12 @@ Section Inv.
       destruct (is_prim s) eqn:P.
       + pinv H; injection H as <- <-; now constructor.
       + destruct (jhas (qualify ns s) (st_tbl st)) eqn:J; [|discriminate H].
-        injection H as <- <-. now constructor.
+        pinv H; injection H as <- <-; now constructor.
     - (* union *)
       destruct (parse_members rec ns l st) as [[ps st1]| | | |] eqn:M; cbn [pbind] in H; try discriminate H.
       apply parse_members_inv in M.
       destruct d as [dv|]; cbn [pbind] in H.
-      + destruct (any_match dv ps) as [[|]| | | |]; cbn [pbind] in H; try discriminate H.
+      + destruct (any_match (st_tbl st1) dv ps) as [[|]| | | |]; cbn [pbind] in H; try discriminate H.
         injection H as <- <-. now constructor.
       + injection H as <- <-. now constructor.
     - (* dict *)
@@ -206,14 +210,13 @@ Section Inv.
         assert (exists fl, fields_list kv fl /\
                  match jget "fields" kv with None => POk [] | Some (JArr fl) => POk fl | Some _ => PErrOther end = POk fl) as (fl & FL & EQ).
         { unfold fields_list. destruct (jget "fields" kv) as [[| | | | |fl|]|]; try discriminate H; eauto. }
-        rewrite EQ in H. cbn [pbind] in H.
+        rewrite EQ in H. cbn [pbind] in H. fold (rbase kv t full ns) in H.
         destruct (parse_fields rec ns' fl _) as [[fs st3]| | | |] eqn:PF; cbn [pbind] in H; try discriminate H.
         apply parse_fields_inv in PF.
         destruct wh; injection H as <- <-;
           [apply (NRecord kv t ns true st d ns' full fl fs st3)|apply (NRecord kv t ns false st d ns' full fl fs st3)]; auto. }
       destruct (is_prim t) eqn:E6; [|discriminate H].
-      destruct (check_default d _); cbn [pbind] in H; try discriminate H.
-      injection H as <- <-. now constructor.
+      pinv H; injection H as <- <-; now constructor.
   Qed.
 End Inv.
 
@@ -321,29 +324,24 @@ Inductive top_traversed : json -> json -> Prop :=
 Definition is_raw (j : json) : Prop :=
   forall kv, j = JObj kv -> jhas "__fastavro_parsed" kv = false.
 
-Lemma run_parse_accepted f j t r : run_parse f j t = POk r -> accepted j.
-Proof.
-  unfold run_parse. intros H.
-  destruct (parse_rec f j "" true (mkst [] t) None) as [x| | | |] eqn:E; try discriminate H.
-  unfold accepted. eauto 10.
-Qed.
+Lemma run_parse_accepted f j st r : run_parse f j st = POk r -> accepted j.
+Proof. unfold run_parse, accepted. eauto 10. Qed.
 
-Lemma parse_tops_in rec l : forall t ps t' m,
-  parse_tops rec l t = POk (ps, t') -> In m l -> exists t0 r, rec m t0 = POk r.
+Lemma parse_tops_in rec l : forall st ps st' m,
+  parse_tops rec l st = POk (ps, st') -> In m l -> exists st0 r, rec m st0 = POk r.
 Proof.
-  induction l as [|s r IH]; intros t ps t' m H I; [destruct I|].
+  induction l as [|s r IH]; intros st ps st' m H I; [destruct I|].
   cbn [parse_tops] in H.
-  destruct (rec s t) as [[p t1]| | | |] eqn:E; cbn [pbind] in H; try discriminate H.
-  destruct (parse_tops rec r t1) as [[ps' t2]| | | |] eqn:E2; cbn [pbind] in H; try discriminate H.
+  destruct (rec s st) as [[p st1]| | | |] eqn:E; cbn [pbind] in H; try discriminate H.
+  destruct (parse_tops rec r st1) as [[ps' st2]| | | |] eqn:E2; cbn [pbind] in H; try discriminate H.
   destruct I as [->|I]; eauto.
 Qed.
 
-Lemma parse_schema_rec_accepted f : forall j t r sub,
-  parse_schema_rec f j t = POk r -> top_traversed j sub ->
-  (forall kv, sub <> JObj kv \/ True) ->
+Lemma parse_schema_rec_accepted f : forall j st r sub,
+  parse_schema_rec f j st = POk r -> top_traversed j sub ->
   (forall m, top_traversed j m -> is_raw m) -> accepted sub.
 Proof.
-  induction f as [|f IH]; intros j t r sub H TT _ RAW; cbn [parse_schema_rec] in H; [discriminate H|].
+  induction f as [|f IH]; intros j st r sub H TT RAW; cbn [parse_schema_rec] in H; [discriminate H|].
   destruct TT as [j sub NL Tr|l m sub I TT].
   - assert (A : accepted j).
     { destruct j as [| | | | |l|kv]; try (eapply run_parse_accepted; eauto; fail).
@@ -352,8 +350,8 @@ Proof.
         { apply (RAW (JObj kv)); [|reflexivity]. apply TTLeaf; [intros; discriminate|constructor]. }
         rewrite R in H. eapply run_parse_accepted; eauto. }
     eapply accepted_traversed; eauto.
-  - destruct (parse_tops (parse_schema_rec f) l t) as [[ps t1]| | | |] eqn:E; cbn [pbind] in H; try discriminate H.
-    destruct (parse_tops_in _ _ _ _ _ m E I) as (t0 & r0 & R).
+  - destruct (parse_tops (parse_schema_rec f) l st) as [[ps st1]| | | |] eqn:E; cbn [pbind] in H; try discriminate H.
+    destruct (parse_tops_in _ _ _ _ _ m E I) as (st0 & r0 & R).
     eapply IH; eauto. intros m' T'. apply RAW. eapply TTMember; eauto.
 Qed.
 
@@ -362,7 +360,7 @@ Theorem parse_schema_accepts_subschemas f j t r sub :
   (forall m, top_traversed j m -> is_raw m) -> accepted sub.
 Proof.
   unfold parse_schema. intros H TT RAW.
-  destruct (parse_schema_rec f j t) as [[p t1]| | | |] eqn:E; try discriminate H.
+  destruct (parse_schema_rec f j (mkst [] t)) as [[p st1]| | | |] eqn:E; try discriminate H.
   eapply parse_schema_rec_accepted; eauto.
 Qed.
 
@@ -479,9 +477,17 @@ Proof.
   rewrite jget_jset_neq by exact N1. now apply jget_jdrop_in.
 Qed.
 
+Lemma keep_get k full enc kv :
+  String.eqb k "namespace" = false -> jget k (keep_null_ns full enc kv) = jget k kv.
+Proof.
+  intros N. unfold keep_null_ns. destruct (negb (String.eqb enc "") && negb (has_dot full)); [|reflexivity].
+  now rewrite jget_jset_neq.
+Qed.
+
 Ltac getk :=
-  repeat first [rewrite jget_jset_eq | rewrite jget_jset_neq by reflexivity | rewrite base_type
-               | rewrite base_reserved by reflexivity].
+  unfold rbase;
+  repeat first [rewrite jget_jset_eq | rewrite jget_jset_neq by reflexivity | rewrite keep_get by reflexivity
+               | rewrite base_type | rewrite base_reserved by reflexivity].
 
 Lemma prim_not_complex t :
   is_prim t = true ->
@@ -768,9 +774,9 @@ Section NodupStep.
     - cbn [set_tbl declared st_names]. now apply nodup_snoc.
     - cbn [set_tbl declared st_names]. now apply nodup_snoc.
     - cbn [set_tbl st_names].
-      assert (N2 : NoDup (st_names (set_tbl full (JObj (base_of kv (JStr t))) (declared full st)))).
+      assert (N2 : NoDup (st_names (set_tbl full (JObj (rbase kv t full ns)) (declared full st)))).
       { cbn [set_tbl declared st_names]. now apply nodup_snoc. }
-      remember (set_tbl full (JObj (base_of kv (JStr t))) (declared full st)) as sta eqn:Esta. clear Esta.
+      remember (set_tbl full (JObj (rbase kv t full ns)) (declared full st)) as sta eqn:Esta. clear Esta.
       clear reckv FL. revert N2. induction FS as [st0|fd r0 st0 p0 st1 ps0 st2 F M IHM]; intros N2; auto.
       apply IHM. destruct F as [fkv nm ty st5 p5 st6 N5 T5 R5]. exact (IH _ _ _ _ _ _ _ R5 N2).
   Qed.
@@ -869,25 +875,53 @@ Qed.
 
 (* defaults *)
 Lemma exact_default_prim f s ns wh st dv :
-  is_prim s = true -> default_matches dv (JStr s) = POk false ->
+  is_prim s = true -> default_matches_prim dv (JStr s) = POk false ->
   parse_rec (S f) (JStr s) ns wh st (Some dv) = PErrParse.
 Proof. intros P M. cbn [parse_rec parse_node]. now rewrite P, M. Qed.
 
+Lemma exact_default_ref f s ns wh st dv :
+  is_prim s = false -> jhas (qualify ns s) (st_tbl st) = true ->
+  default_matches (st_tbl st) dv (JStr (qualify ns s)) = POk false ->
+  parse_rec (S f) (JStr s) ns wh st (Some dv) = PErrParse.
+Proof. intros P J M. cbn [parse_rec parse_node]. now rewrite P, J, M. Qed.
+
 Lemma exact_default_union f l ns wh st dv ps st1 :
-  parse_members (parse_rec f) ns l st = POk (ps, st1) -> any_match dv ps = POk false ->
+  parse_members (parse_rec f) ns l st = POk (ps, st1) -> any_match (st_tbl st1) dv ps = POk false ->
   parse_rec (S f) (JArr l) ns wh st (Some dv) = PErrParse.
 Proof. intros M A. cbn [parse_rec parse_node]. now rewrite M; cbn [pbind]; rewrite A. Qed.
 
 Lemma exact_default_primdict f kv t ns wh st dv :
   jget "type" kv = Some (JStr t) -> is_prim t = true ->
   decimal_checks (base_of kv (JStr t)) kv (JStr t) = POk tt ->
-  default_matches_strict dv t = false ->
+  default_matches_prim dv (JStr t) = POk false ->
   parse_rec (S f) (JObj kv) ns wh st (Some dv) = PErrParse.
 Proof.
   intros T P D M. destruct (prim_not_complex _ P) as (N1 & N2 & N3 & N4 & N5 & N6).
   cbn [parse_rec parse_node]. unfold parse_dict. rewrite T. fold (base_of kv (JStr t)). rewrite D.
-  cbn [pbind]. rewrite N1, N2, N3, N4, N5, N6, P. cbn [orb check_default]. now rewrite M.
+  cbn [pbind]. rewrite N1, N2, N3, N4, N5, N6, P. cbn [orb]. now rewrite M.
 Qed.
+
+(* what the default rule says about booleans, named references and complex members (the repaired checks) *)
+Lemma default_bool_not_number b t :
+  t = "int" \/ t = "long" \/ t = "float" \/ t = "double" -> default_matches_prim (JBool b) (JStr t) = POk false.
+Proof. intros [-> | [-> | [-> | ->]]]; reflexivity. Qed.
+
+Lemma default_ref_by_definition tbl dv q kv :
+  is_prim q = false -> jget q tbl = Some (JObj kv) ->
+  default_matches tbl dv (JStr q) = default_matches_leaf dv (JObj kv).
+Proof.
+  intros P G. cbn [default_matches]. rewrite P, G. cbn [negb andb].
+  destruct tbl; [discriminate G|reflexivity].
+Qed.
+
+Lemma default_complex_member dv kv t :
+  jget "type" kv = Some (JStr t) ->
+  default_matches_leaf dv (JObj kv) =
+    if String.eqb t "array" then POk (is_jarr dv)
+    else if String.eqb t "map" || String.eqb t "record" || String.eqb t "error" then POk (is_jobj dv)
+    else if String.eqb t "enum" || String.eqb t "fixed" then POk (is_jstr dv)
+    else default_matches_prim dv (JStr t).
+Proof. intros T. cbn [default_matches_leaf]. now rewrite T. Qed.
 
 Lemma exact_default_named f kv t ns wh st dv ns' full :
   jget "type" kv = Some (JStr t) -> (t = "enum" \/ t = "fixed") ->
@@ -986,4 +1020,152 @@ Proof.
               | _ => POk tt end = (POk tt : pres unit)).
   { destruct ty; try reflexivity. destruct (String.eqb_spec s0 "fixed"); [subst; contradiction|reflexivity]. }
   rewrite F. cbn [pbind]. destruct (Z.ltb p s) eqn:E4; [reflexivity|lia].
+Qed.
+
+(** ---- parse_schema: the name set is shared by the members of a top-level union ---- *)
+Lemma unmarked_arr l : unmarked (JArr l) = forallb unmarked l.
+Proof. unfold unmarked. rewrite jfold_arr. rewrite forallb_map. reflexivity. Qed.
+
+Lemma unmarked_obj kv : unmarked (JObj kv) = negb (jhas "__fastavro_parsed" kv).
+Proof. reflexivity. Qed.
+
+Lemma parse_schema_rec_names f : forall j st p st',
+  unmarked j = true -> parse_schema_rec f j st = POk (p, st') ->
+  st_names st' = (st_names st ++ spec_names "" j)%list /\ (NoDup (st_names st) -> NoDup (st_names st')).
+Proof.
+  induction f as [|f IH]; intros j st p st' U H; cbn [parse_schema_rec] in H; [discriminate H|].
+  assert (RUN : forall j0, run_parse f j0 st = POk (p, st') ->
+                st_names st' = (st_names st ++ spec_names "" j0)%list /\ (NoDup (st_names st) -> NoDup (st_names st'))).
+  { unfold run_parse. intros j0 R. split; [exact (proj1 (parse_rec_names f _ _ _ _ _ _ _ R))|].
+    exact (parse_rec_nodup f _ _ _ _ _ _ _ R). }
+  destruct j as [| | | | |l|kv]; try (apply RUN; exact H).
+  - destruct (parse_tops (parse_schema_rec f) l st) as [[ps st1]| | | |] eqn:E; cbn [pbind] in H; try discriminate H.
+    injection H as <- <-. rewrite unmarked_arr in U.
+    unfold spec_names. rewrite spec_names_m_arr. fold (spec_names "").
+    clear RUN. revert st ps st1 E. induction l as [|m r IHl]; intros st ps st1 E; cbn [parse_tops] in E.
+    + injection E as <- <-. cbn [map concat]. rewrite app_nil_r. auto.
+    + cbn [forallb] in U. apply Bool.andb_true_iff in U. destruct U as [U1 U2].
+      destruct (parse_schema_rec f m st) as [[p1 st2]| | | |] eqn:E1; cbn [pbind] in E; try discriminate E.
+      destruct (parse_tops (parse_schema_rec f) r st2) as [[ps2 st3]| | | |] eqn:E2; cbn [pbind] in E; try discriminate E.
+      injection E as <- <-.
+      destruct (IH _ _ _ _ U1 E1) as [A1 B1].
+      destruct (IHl U2 _ _ _ E2) as [A2 B2].
+      cbn [map concat]. split; [rewrite A2, A1, <- app_assoc; reflexivity|auto].
+  - rewrite unmarked_obj in U. apply Bool.negb_true_iff in U. rewrite U in H. apply RUN. exact H.
+Qed.
+
+Theorem parse_schema_names_unique f j t p t' :
+  unmarked j = true -> parse_schema f j t = POk (p, t') -> NoDup (spec_names "" j).
+Proof.
+  unfold parse_schema. intros U H.
+  destruct (parse_schema_rec f j (mkst [] t)) as [[p0 st1]| | | |] eqn:E; cbn [pbind] in H; try discriminate H.
+  destruct (parse_schema_rec_names f _ _ _ _ U E) as [A B]. cbn [st_names app] in A, B.
+  rewrite <- A. apply B. constructor.
+Qed.
+
+(** ---- the table entry of every name carries that name ----
+    [open]: the records whose fields are being parsed (their entries are the partially built dicts) *)
+Definition entries_ok (open : list string) (tbl : named) : Prop :=
+  forall n d, jget n tbl = Some d -> In n open \/ exists kv, d = JObj kv /\ jget "name" kv = Some (JStr n).
+
+Lemma entries_set open tbl n kv :
+  entries_ok open tbl -> jget "name" kv = Some (JStr n) -> entries_ok open (jset n (JObj kv) tbl).
+Proof.
+  intros E N m d G. destruct (String.eqb_spec m n) as [->|NE].
+  - rewrite jget_jset_eq in G. injection G as <-. right. eauto.
+  - rewrite jget_jset_neq in G; [eauto|]. now apply String.eqb_neq.
+Qed.
+
+Lemma entries_set_open open tbl n v : entries_ok open tbl -> entries_ok (n :: open) (jset n v tbl).
+Proof.
+  intros E m d G. destruct (String.eqb_spec m n) as [->|NE]; [left; left; reflexivity|].
+  rewrite jget_jset_neq in G by (now apply String.eqb_neq).
+  destruct (E _ _ G) as [I|X]; [left; right; exact I|right; exact X].
+Qed.
+
+Lemma entries_close open tbl n kv :
+  entries_ok (n :: open) tbl -> jget "name" kv = Some (JStr n) -> entries_ok open (jset n (JObj kv) tbl).
+Proof.
+  intros E N m d G. destruct (String.eqb_spec m n) as [->|NE].
+  - rewrite jget_jset_eq in G. injection G as <-. right. eauto.
+  - rewrite jget_jset_neq in G by (now apply String.eqb_neq).
+    destruct (E _ _ G) as [[X|I]|X]; [congruence|left; exact I|right; exact X].
+Qed.
+
+Definition entries_spec (rec : recfun) : Prop :=
+  forall j ns wh st d p st' open,
+    rec j ns wh st d = POk (p, st') -> entries_ok open (st_tbl st) -> entries_ok open (st_tbl st').
+
+Section EntriesStep.
+  Variable rec : recfun.
+  Hypothesis IH : entries_spec rec.
+  Lemma node_entries : entries_spec (parse_node rec).
+  Proof.
+    intros j ns wh st d p st' open H. apply parse_node_inv in H.
+    destruct H as [s ns wh st d P|s ns wh st d P J|l ns wh st d ps st' M|kv t ns wh st d T P
+                   |kv it ns wh st d p st' T I R|kv it ns wh st d p st' T I R
+                   |kv ns wh st d ns' full syms ss T SN D SY SS ND parsed
+                   |kv ns wh st d ns' full sz T SN D SZ parsed
+                   |kv t ns wh st d ns' full fl fs st3 T TT SN D FL FS reckv]; intros E; auto.
+    - revert E. induction M as [st0|s0 r0 st0 p0 st1 ps0 st2 R M IHM]; intros E; [exact E|].
+      apply IHM. exact (IH _ _ _ _ _ _ _ _ R E).
+    - exact (IH _ _ _ _ _ _ _ _ R E).
+    - exact (IH _ _ _ _ _ _ _ _ R E).
+    - cbn [set_tbl declared st_tbl]. apply entries_set; [exact E|]. getk. reflexivity.
+    - cbn [set_tbl declared st_tbl]. apply entries_set; [exact E|]. getk. reflexivity.
+    - cbn [set_tbl st_tbl]. apply entries_close; [|subst reckv; getk; reflexivity].
+      assert (E2 : entries_ok (full :: open) (st_tbl (set_tbl full (JObj (rbase kv t full ns)) (declared full st)))).
+      { cbn [set_tbl declared st_tbl]. now apply entries_set_open. }
+      remember (set_tbl full (JObj (rbase kv t full ns)) (declared full st)) as sta eqn:Esta. clear Esta.
+      clear reckv FL. revert E2. induction FS as [st0|fd r0 st0 p0 st1 ps0 st2 F M IHM]; intros E2; auto.
+      apply IHM. destruct F as [fkv nm ty st5 p5 st6 N5 T5 R5]. exact (IH _ _ _ _ _ _ _ _ R5 E2).
+  Qed.
+End EntriesStep.
+
+Theorem parse_rec_entries f : entries_spec (parse_rec f).
+Proof.
+  induction f as [|f IH]; cbn [parse_rec].
+  - intros j ns wh st d p st' open H. discriminate H.
+  - apply node_entries. exact IH.
+Qed.
+
+(* every reference of the result denotes a table entry that carries that full name *)
+Theorem refs_denote f j ns wh st d p st' :
+  parse_rec f j ns wh st d = POk (p, st') -> entries_ok [] (st_tbl st) ->
+  forall r, In r (refs p) -> exists kv, jget r (st_tbl st') = Some (JObj kv) /\ jget "name" kv = Some (JStr r).
+Proof.
+  intros H E r I.
+  destruct (parse_rec_refs f _ _ _ _ _ _ _ H) as [_ B]. specialize (B r I).
+  pose proof (parse_rec_entries f _ _ _ _ _ _ _ [] H E) as E'.
+  unfold jhas in B. destruct (jget r (st_tbl st')) as [dv|] eqn:G; [|discriminate B].
+  destruct (E' _ _ G) as [[]|(kv & -> & N)]. eauto.
+Qed.
+
+(** ---- the "namespace" key of the output (_keep_null_namespace) ---- *)
+Definition kept_namespace (ns full : string) : option json :=
+  if negb (String.eqb ns "") && negb (has_dot full) then Some (JStr "") else None.
+
+Lemma keep_get_namespace full enc kv :
+  jget "namespace" kv = None -> jget "namespace" (keep_null_ns full enc kv) = kept_namespace enc full.
+Proof.
+  intros N. unfold keep_null_ns, kept_namespace.
+  destruct (negb (String.eqb enc "") && negb (has_dot full)); [apply jget_jset_eq|exact N].
+Qed.
+
+Theorem output_namespace f kv t ns wh st d pkv st' :
+  parse_rec f (JObj kv) ns wh st d = POk (JObj pkv, st') ->
+  jget "type" kv = Some (JStr t) -> named_type t ->
+  jget "namespace" pkv = kept_namespace ns (spec_fullname ns kv) /\ jget "name" pkv = Some (JStr (spec_fullname ns kv)).
+Proof.
+  intros H T N. open_accept H.
+  inversion H; subst; same_type;
+    try (destruct N as [N|[N|[N|N]]]; subst; discriminate);
+    match goal with SN : schema_name kv _ = POk _ |- _ => apply schema_name_spec in SN; destruct SN as (-> & -> & _) end.
+  - rewrite jget_jset_neq by reflexivity. rewrite keep_get_namespace; [|getk; reflexivity]. split; [reflexivity|getk; reflexivity].
+  - rewrite jget_jset_neq by reflexivity. rewrite keep_get_namespace; [|getk; reflexivity]. split; [reflexivity|getk; reflexivity].
+  - match goal with X : mark _ _ = JObj pkv |- _ => unfold mark in X; destruct wh; injection X as <- end;
+      repeat match goal with x := _ |- _ => subst x end;
+      (split; [|getk; reflexivity]);
+      repeat rewrite jget_jset_neq by reflexivity; unfold rbase; (rewrite keep_get_namespace; [|getk; reflexivity]);
+      reflexivity.
 Qed.
